@@ -272,6 +272,9 @@ func guardFacts(fn *ssa.Function) []guardFact {
 	}
 	guardFactsBusy[fn] = true
 	defer func() { guardFactsBusy[fn] = false }()
+	prevFrame := curFrame
+	curFrame = TopFunc2(fn)
+	defer func() { curFrame = prevFrame }()
 	tm := NewTermer()
 	var rels []*Term
 	seen := map[string]bool{}
@@ -335,6 +338,9 @@ func boolFacts(fn *ssa.Function) (out [2][]guardFact) {
 	}
 	guardFactsBusy[fn] = true
 	defer func() { guardFactsBusy[fn] = false }()
+	prevFrame := curFrame
+	curFrame = TopFunc2(fn)
+	defer func() { curFrame = prevFrame }()
 	tm := NewTermer()
 	var rels []*Term
 	seen := map[string]bool{}
@@ -510,7 +516,14 @@ func (ps *PathStates) RequireOnEdge(from, to *ssa.BasicBlock, phi func(val map[s
 
 func AnalyzePaths(fn *ssa.Function, atoms []Atom) *PathStates { return analyzePaths(fn, atoms, true) }
 
+// curFrame is the function being analysed in its own terms: its parameters are rendered as parameters even when it is a
+// helper extracted from another function (guard-helper summaries and gate helpers reason about the helper itself).
+var curFrame *ssa.Function
+
 func analyzePaths(fn *ssa.Function, atoms []Atom, helpers bool) *PathStates {
+	prevFrame := curFrame
+	curFrame = TopFunc2(fn)
+	defer func() { curFrame = prevFrame }()
 	ps := &PathStates{Fn: fn, Atoms: atoms, tm: NewTermer(), in: map[*ssa.BasicBlock]map[State]bool{}, Matched: map[string][]string{}, edge: map[[2]*ssa.BasicBlock]map[State]bool{}}
 	if len(fn.Blocks) == 0 {
 		return ps
